@@ -4,6 +4,7 @@ package tally
 
 import (
 	"sync"
+	"time"
 
 	"github.com/uber-go/tally/v4/internal/verifrt"
 )
@@ -170,9 +171,9 @@ func c09Scopes(sameIdentity bool, tagged bool, shards uint, preempt int) {
 	verifrt.Reach("c09.scopes.end")
 }
 
-func VerifC09SubScopeSame()  { c09Scopes(true, false, 1, 2) }
-func VerifC09TaggedSame()    { c09Scopes(true, true, 1, 2) }
-func VerifC09SubScopeDiff()  { c09Scopes(false, false, 1, 2) }
+func VerifC09SubScopeSame()   { c09Scopes(true, false, 1, 2) }
+func VerifC09TaggedSame()     { c09Scopes(true, true, 1, 2) }
+func VerifC09SubScopeDiff()   { c09Scopes(false, false, 1, 2) }
 func VerifC09SubScopeShard2() { c09Scopes(true, false, 2, 2) }
 
 // VerifC09BucketCache: two goroutines create histograms whose bucket sets collide in the
@@ -194,4 +195,29 @@ func VerifC09BucketCache() {
 	verifrt.Assert("c09.cache.a-keeps-own-bounds", verifrt.And(len(ha.buckets) == 3, verifrt.And(ha.buckets[0].valueUpperBound == 1, ha.buckets[1].valueUpperBound == x)))
 	verifrt.Assert("c09.cache.b-keeps-own-bounds", verifrt.And(len(hb.buckets) == 4, verifrt.And(hb.buckets[0].valueUpperBound == 1, verifrt.And(hb.buckets[1].valueUpperBound == x, hb.buckets[2].valueUpperBound == x))))
 	verifrt.Reach("c09.cache.end")
+}
+
+// VerifC09BucketCacheCollide: two goroutines create, for the first time and concurrently,
+// histograms with fully symbolic 2-element bound sets - the solver is free to pick two
+// different sets with the same cache identity; each histogram must keep its own bounds.
+var c09CollidePrefix = "c09.cache.collide"
+
+func VerifC09BucketCacheCollide() {
+	rec := &vReporter{}
+	root := newRootScope(ScopeOptions{Reporter: rec, OmitCardinalityMetrics: true, registryShardCount: 1}, 0)
+	a, b := time.Duration(verifrt.Int64("a")), time.Duration(verifrt.Int64("b"))
+	c, d := time.Duration(verifrt.Int64("c")), time.Duration(verifrt.Int64("d"))
+	verifrt.Assume(verifrt.And(a < b, c < d))
+	var hs [2]Histogram
+	var wg sync.WaitGroup
+	verifrt.Explore(2)
+	wg.Add(2)
+	go func() { defer wg.Done(); hs[0] = root.Histogram("ha", DurationBuckets{a, b}) }()
+	go func() { defer wg.Done(); hs[1] = root.SubScope("s").Histogram("hb", DurationBuckets{c, d}) }()
+	wg.Wait()
+	verifrt.StopExplore()
+	ha, hb := hs[0].(*histogram), hs[1].(*histogram)
+	verifrt.Assert(c09CollidePrefix+".a-keeps-own-bounds", verifrt.And(len(ha.buckets) == 3, verifrt.And(ha.buckets[0].durationUpperBound == a, ha.buckets[1].durationUpperBound == b)))
+	verifrt.Assert(c09CollidePrefix+".b-keeps-own-bounds", verifrt.And(len(hb.buckets) == 3, verifrt.And(hb.buckets[0].durationUpperBound == c, hb.buckets[1].durationUpperBound == d)))
+	verifrt.Reach("c09.cache.collide.end")
 }
